@@ -57,6 +57,9 @@ def cfgs_quick():
         # end to end through runcrypt with the real AES streams, compared with the reference file
         for cm in (1, 2):
             L.append((2, "none", dict(T=2, len=40, enc=enc, bound=1, scenario="e2e", cmode=cm, hmode=cm), 1))
+        # end to end on the chunk-boundary lengths (padded length = exactly one / two chunks), incl. the single-worker pipeline
+        for (T, ln) in ((1, 31), (1, 63), (2, 31), (2, 63)):
+            L.append((2, "none", dict(T=T, len=ln, enc=enc, bound=1, scenario="e2e", cmode=3, hmode=2), 1))
         # the same end-to-end run with scheduling points INSIDE the real stream code (function entry/exit callbacks):
         # two workers interleaved within runcry()/runaes_128bit(); catches state shared between the per-worker streams
         for cm in (0, 1, 2, 3, 4):
